@@ -63,6 +63,8 @@ pub struct StateRec {
     pub foreign_msgs: usize,
     /// state of the stored welcome for every published invitation ("" = not stored)
     pub welcome_states: Vec<String>,
+    /// state of the processed-welcome record per wrapper id ("" = none)
+    pub welcome_dedup: Vec<String>,
 }
 
 pub struct Edge {
@@ -85,6 +87,7 @@ pub struct Graph {
     pub transitions: usize,
     pub log_records: usize,
     pub log_templates: std::collections::BTreeSet<u64>,
+    pub prejoin: bool,
 }
 
 pub struct ExploreOpts {
@@ -99,6 +102,8 @@ pub struct ExploreOpts {
     pub with_welcomes: bool,
     /// 0 = never, 1 = only while the stored welcome is pending, 2 = in every state
     pub welcome_consent: u8,
+    /// start joiners from the state before they saw their invitation
+    pub prejoin: bool,
 }
 
 fn snapshot_state(c: &Client, w: &World, pool_ids: &[nostr::EventId], welcome_ids: &[nostr::EventId], depth: usize, parent: Option<(usize, Action)>, keep: bool) -> StateRec {
@@ -116,11 +121,12 @@ fn snapshot_state(c: &Client, w: &World, pool_ids: &[nostr::EventId], welcome_id
     };
     let foreign_msgs: usize = c.groups().iter().filter(|x| x.mls_group_id != w.gid).map(|x| c.group_obs(&x.mls_group_id).map(|o| o.messages.len()).unwrap_or(0)).sum();
     let welcome_states: Vec<String> = w.welcomes.iter().map(|(_, r, _)| r.id.and_then(|id| with_mdk!(c, m => m.get_welcome(&id)).ok().flatten()).map(|x| x.state.as_str().to_string()).unwrap_or_default()).collect();
+    let welcome_dedup: Vec<String> = w.welcomes.iter().map(|(wid, _, _)| with_mdk!(c, m => { use mdk_storage_traits::welcomes::WelcomeStorage; use openmls::prelude::OpenMlsProvider; m.provider.storage().find_processed_welcome_by_event_id(wid) }).ok().flatten().map(|p| p.state.as_str().to_string()).unwrap_or_default()).collect();
     let dedup: Vec<String> = pool_ids.iter().map(|id| c.dedup(id).map(|p| p.state.as_str().to_string()).unwrap_or_default()).collect();
     let snap_queue: Vec<(u64, String, u64)> = with_mdk!(c, m => m.verif_snapshot_queue(&w.gid)).into_iter().map(|e| (e.epoch, e.applied_commit_id.to_hex(), e.applied_commit_ts)).collect();
     let mut snap_stored: Vec<String> = with_mdk!(c, m => { use mdk_storage_traits::MdkStorageProvider; use openmls::prelude::OpenMlsProvider; m.provider.storage().list_group_snapshots(&w.gid) }).unwrap_or_default().into_iter().map(|(n, _)| n).collect();
     snap_stored.sort();
-    StateRec { key_hash: h64(&key_s), obs_hash: h64(&obs_s), g, dedup, snap_queue, snap_stored, depth, parent, key_json: if keep { Some(key_s) } else { None }, auto_pending: false, send_ok, foreign_msgs, welcome_states }
+    StateRec { key_hash: h64(&key_s), obs_hash: h64(&obs_s), g, dedup, snap_queue, snap_stored, depth, parent, key_json: if keep { Some(key_s) } else { None }, auto_pending: false, send_ok, foreign_msgs, welcome_states, welcome_dedup }
 }
 
 pub fn member_epoch(s: &StateRec) -> u64 {
@@ -298,8 +304,8 @@ pub fn step_on(w: &World, f: Client, a: Action) -> StepOut {
 pub fn explore(w: &World, member: &str, opts: &ExploreOpts) -> Graph {
     let pool_ids = w.pool_ids();
     let welcome_ids = w.welcome_ids();
-    let init = w.initial[member].fork();
-    let mut g = Graph { member: member.to_string(), regime: opts.regime, states: vec![], edges: vec![], capped: false, transitions: 0, log_records: 0, log_templates: Default::default() };
+    let init = if opts.prejoin && w.prejoin.contains_key(member) && !w.sc.members.iter().any(|m| m == member) { w.prejoin[member].fork() } else { w.initial[member].fork() };
+    let mut g = Graph { member: member.to_string(), regime: opts.regime, states: vec![], edges: vec![], capped: false, transitions: 0, log_records: 0, log_templates: Default::default(), prejoin: opts.prejoin };
     let mut index: HashMap<u64, usize> = HashMap::new();
     let mut live: BTreeMap<usize, Client> = BTreeMap::new();
     let s0 = snapshot_state(&init, w, &pool_ids, &welcome_ids, 0, None, opts.keep_key_json);
@@ -406,7 +412,7 @@ impl Graph {
 pub fn validate_trace(w: &World, g: &Graph, acts: &[Action]) -> Result<(), String> {
     let pool_ids = w.pool_ids();
     let welcome_ids = w.welcome_ids();
-    let mut c = w.initial[&g.member].fork();
+    let mut c = if g.prejoin && w.prejoin.contains_key(&g.member) && !w.sc.members.iter().any(|m| *m == g.member) { w.prejoin[&g.member].fork() } else { w.initial[&g.member].fork() };
     let mut s = 0usize;
     for a in acts {
         let e = g.follow(s, *a).ok_or_else(|| format!("no edge {a:?} in state {s}"))?;
